@@ -374,7 +374,7 @@ func main() {
 	defer os.RemoveAll(workdir)
 	rng := o.Rng()
 	res := hx.NewResult("C01", "oracle: generated histories (initial cluster + 1..5 batches of 1..3 changes over Ingress/IngressClass/Service/Endpoints/Secret/ConfigMap/Pod, with second events for one object inside a batch) through the real watchers+converter+instance, behaviour of the written files vs a fresh pipeline; correspondence: histories in the model's feature subset, every reconciliation compared with coq/Model/Conv.v; non-trivial = at least one partial reconciliation that changed a host or backend; distinct by history text")
-	cw := hx.NewCaseWriter(o, res, "From HI Require Import Corr.Corr_C01.", "ccase", 40)
+	cw := hx.NewCaseWriter(o, res, "From HI Require Import Corr.Corr_C01.", "ccase", 15)
 
 	var histories [][][]pipeline.Change
 	var isCorpus []bool
@@ -393,7 +393,7 @@ func main() {
 			isCorpus = append(isCorpus, true)
 		}
 	}
-	nOracle := o.Count(120, 4000)
+	nOracle := o.Count(80, 4000)
 	nCorr := o.Count(60, 1500)
 	if o.Search {
 		nOracle, nCorr = o.Count(600, 8000), 0
